@@ -31,6 +31,27 @@ class World(object):
         self.handles = {}    # name -> dict
         self.tabcache = {}
         self.cfg = script.get("cfg", {})
+        self.reused = {}     # (caller, kind) -> long-lived SFile / Recfile object re-open()ed per file
+        self.cur = 0         # caller of the operation being executed
+        self.nreuse = 0
+
+    def reuse(self, kind, mods, path, mode, **kw):
+        """the caller's long-lived object of that kind, (re)opened on path"""
+        key = (self.cur, kind)
+        obj = self.reused.get(key)
+        cls = mods["sfile"].SFile if kind == "SFile" else mods["recfile"].Recfile
+        if obj is None:
+            obj = self.reused[key] = cls(path, mode, **kw)
+        else:
+            self.run.fault("long_lived_object_reopened")
+            obj.open(path, mode, **kw)
+        self.nreuse += 1
+        return obj
+
+    def release(self, obj, force=False):
+        # every other use leaves the object open: the next open() has to clean up itself
+        if force or self.nreuse % 2 == 0:
+            obj.close()
 
     def path(self, p):
         return os.path.join(self.root, p)
@@ -206,6 +227,7 @@ def execute(script, run, env):
             if prev_c is not None and c != prev_c and ncallers > 1:
                 run.fault("interleaved_callers")
             prev_c = c
+            w.cur = c
             fn = OPS.get(op["k"])
             if fn is None:
                 run.event(c, op["k"], "", "unknown-op")
@@ -217,7 +239,7 @@ def execute(script, run, env):
             if run.failures and not script.get("keep_going"):
                 break
     finally:
-        for h in list(w.handles.values()):
+        for h in list(w.handles.values()) + [{"obj": o} for o in w.reused.values()]:
             try:
                 h["obj"].close()
             except Exception:
@@ -281,6 +303,9 @@ def _do_create(w, op, mods, tab, hdr):
     kw = {}
     if delim is not None:
         kw["delim"] = delim
+    if w.prop == "C15" and op.get("wopts"):
+        kw.update(op["wopts"])
+        w.run.fault("writer_option_" + "+".join(sorted(op["wopts"])))
     if e == "sfile.write":
         sfile.write(path, tab, header=hdr, **kw)
     elif e == "sfile.write_swapped":
@@ -299,6 +324,14 @@ def _do_create(w, op, mods, tab, hdr):
         rf = recfile.Open(path, "w", **kw)
         rf.write(tab)
         rf.close()
+    elif e == "SFile.reused":
+        sf = w.reuse("SFile", mods, path, "w", **kw)
+        sf.write(tab, header=hdr)
+        w.release(sf, force=True)
+    elif e == "Recfile.reused":
+        rf = w.reuse("Recfile", mods, path, "w", **kw)
+        rf.write(tab)
+        w.release(rf, force=True)
     else:
         raise Skip("unknown entry %s" % e)
 
@@ -405,6 +438,12 @@ def _full_read(w, m, p, entry, mods):
                 return sf.read(header=True)
             finally:
                 sf.close()
+        if entry == "SFile.reused":
+            sf = w.reuse("SFile", mods, path, "r")
+            try:
+                return sf.read(), sf.get_header()
+            finally:
+                w.release(sf)
         if entry == "io.read":
             return eio.read(path), None
         if entry == "io.read_hdr":
@@ -419,6 +458,12 @@ def _full_read(w, m, p, entry, mods):
         if entry == "Recfile.offset_count":
             with recfile.Recfile(path, dtype=m["dtype"], offset=off, **dkw) as rf:
                 return rf[:], None
+        if entry == "Recfile.reused.offset":
+            rf = w.reuse("Recfile", mods, path, "r", dtype=m["dtype"], offset=off, **dkw)
+            try:
+                return rf.read(), None
+            finally:
+                w.release(rf)
         if entry == "recfile.read.offset":
             return recfile.read(path, m["dtype"], offset=off, nrows=n, **dkw), None
         if entry == "io.read_dtype_offset":
@@ -437,6 +482,12 @@ def _full_read(w, m, p, entry, mods):
         if entry == "Recfile.descr":
             with recfile.Recfile(path, "r", dtype=m["dtype"].descr, **dkw) as rf:
                 return rf.read(), None
+        if entry == "Recfile.reused":
+            rf = w.reuse("Recfile", mods, path, "r", dtype=m["dtype"], **dkw)
+            try:
+                return rf.read(), None
+            finally:
+                w.release(rf)
         if entry == "io.read_dtype":
             return eio.read(path, dtype=m["dtype"], **dkw), None
     raise Skip("entry %s does not apply" % entry)
@@ -536,6 +587,9 @@ def op_open_w(w, op, mods):
             kw.update({"dtype": m["dtype"]})
             if op.get("nrows") == "given":
                 kw["nrows"] = w.nrows(m)
+    if w.prop == "C15" and op.get("wopts"):
+        kw.update(op["wopts"])
+        run.fault("writer_option_" + "+".join(sorted(op["wopts"])))
     st = _fstate(m) if exists else "absent"
     try:
         if kind == "SFile":
@@ -545,7 +599,7 @@ def op_open_w(w, op, mods):
     except Exception as e:
         run.event(op.get("c", 0), "open_w", p, "error(%s)" % type(e).__name__, "%s:%s" % (kind, mode))
         run.trans.add("%s|open_w|%s:%s|error" % (st, kind, mode))
-        if w.prop == "C03":
+        if w.prop in ("C03", "C04"):
             run.fail("rec.open_w.raises", _feat(m, kind=kind, mode=mode, exists=exists),
                      "%s(%s, %r) raised %r (file %s)" % (kind, p, mode, e, "exists" if exists else "does not exist"))
         return
@@ -617,7 +671,7 @@ def op_write(w, op, mods):
             h["last"] = "error"
             run.event(op.get("c", 0), "write", p, "error(%s)" % type(err).__name__)
             run.trans.add(st + "|write|error")
-            if w.prop == "C03":
+            if w.prop in ("C03", "C04"):
                 run.fail("rec.write.raises", feats, "%s(%r).write of a compatible chunk #%d (%d rows) raised %r"
                          % (h["kind"], h["mode"], len(m["chunks"]) + 1, tab.shape[0], err))
             w.files[p] = None
@@ -672,7 +726,7 @@ def op_close(w, op, mods):
                 _forget(w, p)
                 return
             run.fault("close_after_writes")
-            if w.prop == "C03":
+            if w.prop in ("C03", "C04"):
                 check_durable(w, p, "rec.durable")
 
 
@@ -706,6 +760,9 @@ def op_append(w, op, mods):
     before = w.raw(p) if exists else None
     path = w.path(p)
     dkw = {"delim": delim} if delim is not None else {}
+    if w.prop == "C15" and op.get("wopts"):
+        dkw.update(op["wopts"])
+        run.fault("writer_option_" + "+".join(sorted(op["wopts"])))
     feats = _feat(m, entry=entry, exists=exists) if m else {"form": "none", "text": bool(delim), "entry": entry, "exists": False}
     st = _fstate(m) if exists else "absent"
     arg, guard = tab, None
@@ -745,7 +802,7 @@ def op_append(w, op, mods):
         if err is not None:
             run.event(op.get("c", 0), "append", p, "error(%s)" % type(err).__name__, entry)
             run.trans.add("%s|append|%s|error" % (st, entry))
-            if w.prop == "C03":
+            if w.prop in ("C03", "C04"):
                 run.fail("rec.append.raises", feats, "%s of a compatible chunk to %s (%s) raised %r"
                          % (entry, p, "existing, %d rows" % w.nrows(m) if m else "not existing yet", err))
             _forget(w, p)
@@ -758,7 +815,7 @@ def op_append(w, op, mods):
         run.states.add(_fstate(m))
         run.trans.add("%s|append|%s|ok" % (st, entry))
         run.event(op.get("c", 0), "append", p, "ok", "%s:%d" % (entry, tab.shape[0]))
-        if w.prop == "C03":
+        if w.prop in ("C03", "C04"):
             check_durable(w, p, "rec.durable")
         else:
             _learn_offset(w, p)
